@@ -92,6 +92,31 @@ def run_case(ctx, case):
                 if pt_canon(old(z)) != pt_canon(new(z)):
                     rec.violation("forced reduction does not keep the value at a remaining knot", case, knot=str(z))
                     break
+        if mode == "forced" and W is None:
+            # constrained best approximation: the residual C - D is L2-orthogonal to every spline of the lower-degree space that
+            # vanishes at the remaining knots, i.e. its moment vector lies in the row space of the node-evaluation matrix
+            S_ = list(after[0])
+            ps_, ns_, ks_ = kv_info(S_)
+            dim_ = len(P[0])
+            g = []
+            for i_ in range(ns_):
+                e_ = [(F(1),) if j_ == i_ else (F(0),) for j_ in range(ns_)]
+                a_ = drv.call("rf.inner", *curve_args(*start), S_, [list(x) for x in e_], None)
+                b_ = drv.call("rf.inner", *curve_args(*after), S_, [list(x) for x in e_], None)
+                if a_[0] != "ok" or b_[0] != "ok":
+                    g = None
+                    break
+                g.append([x - y for x, y in zip(a_[1], b_[1])])
+            l3(rec, "rf.inner-optimality")
+            if g is not None:
+                # degree 0: no interpolation constraint, plain orthogonal projection (all moments vanish)
+                G_ = [list(drv.call("basis.eval", S_, None, ps_, z)[1]) for z in ks_] if ps_ >= 1 else [[F(0)] * ns_]
+                for d_ in range(dim_):
+                    col = [g[i_][d_] for i_ in range(ns_)]
+                    if rank(G_ + [col]) != rank(G_):
+                        rec.violation("forced reduction is not the constrained best approximation: the residual is not orthogonal to "
+                                      "the splines of the lower degree that vanish at the remaining knots", case, moments=ser(col), result=ser(after))
+                        break
         return
     if mode == "invalid":
         for name, fn in [("increase(0)", lambda: curve.degree_increase(0)), ("increase(-1)", lambda: curve.degree_increase(-1)),
